@@ -256,6 +256,16 @@ func TestVerifC13(t *testing.T) {
 					perm[k] = k
 				}
 			}
+			if i%3 == 1 {
+				// unrelated objects at the root of the upload bucket (what other tools
+				// leave behind), sorting before and after the days' directories
+				for _, nm := range []string{".DS_Store", ".gitkeep", "0-README.txt", "1999-12-27.json", "README", "zz.json"} {
+					if rnd.Intn(2) == 0 {
+						os.WriteFile(filepath.Join(e.root, "uploaded", nm), []byte("not a report"), 0o644)
+						res.Hit("stray-object-in-upload-bucket")
+					}
+				}
+			}
 			for _, k := range perm {
 				e.store(all[k])
 			}
@@ -475,7 +485,7 @@ func TestVerifC13(t *testing.T) {
 			res.Sample(map[string]any{"case": i, "days": ndays, "reports": len(all), "first_day": dayStr(day0)})
 		}
 	}
-	res.Require("merge-under-descriptor-limit", "concurrent-chart-requests", "re-merge-after-replacement", "merged-line>64KiB", "duplicate-X", "missing-day", "sub-range", "semver-equal-versions")
+	res.Require("stray-object-in-upload-bucket", "merge-under-descriptor-limit", "concurrent-chart-requests", "re-merge-after-replacement", "merged-line>64KiB", "duplicate-X", "missing-day", "sub-range", "semver-equal-versions")
 	if err := res.Write(); err != nil {
 		t.Fatal(err)
 	}
